@@ -22,7 +22,7 @@ func init() {
 		ID: "C20",
 		Explanation: "R1 (ESP on gcpkms.(*Signer).Sign): a nil-error return is reachable only after (a) the equal edge of a comparison between a CRC32C of response.GetSignature() and response.GetSignatureCrc32C(), (b)/(c) GetVerifiedDigestCrc32C / GetVerifiedDataCrc32C returned true or the request field was found nil, (d) the type assertion to *rsa.PSSOptions succeeded and the options compared equal to the literal {EqualsHash, SHA-256}; (e) the request literal always carries both checksums (wrapperspb.Int64 of a CRC32C, the digest checksum over the digest bytes sent) so (b)/(c) cannot be skipped; the table is crc32.MakeTable(crc32.Castagnoli). " +
 			"R2 (CFG, paging loops = loops in keys/gcpkms around a KeyManagementServiceClient.List* call): the loop-carried page token is this iteration's GetNextPageToken(); every back edge is dominated by the non-empty edge of a comparison of that token with \"\"; every non-error exit of the loop at its own nesting level is dominated by the empty edge (early returns from the inner item loop are allowed). " +
-			"R3 (ESP, pollers): functions returning a key-version name return a nil error only after State == ENABLED was observed on the latest poll (or from another poller); a polling loop has a select on ctx.Done(). " +
+			"R3 (ESP, pollers): functions returning a key-version name return a nil error only after State == ENABLED was observed on the latest poll (or from another poller); a polling loop has a select on ctx.Done() and every back edge of the loop passes it. " +
 			"R4 (CFG): the destroyable-state table covers every CryptoKeyVersionState constant of kmspb except UNSPECIFIED, maps exactly ENABLED and DISABLED to true, and defaults to an error; the destroy call in the wipeout loop is gated only by that table's verdict. " +
 			"Not covered: the service's behaviour, bit-level CRC properties, that polling eventually ends.",
 		Assumptions: []string{"go/types, go/ssa", "kmspb getters", "wrapperspb.Int64 never returns nil", "Cloud KMS list calls return an empty next_page_token exactly on the last page"},
@@ -620,18 +620,37 @@ func runC20(c *Ctx) {
 					continue
 				}
 				hasDone := false
+				var selBlocks []*ssa.BasicBlock
 				for lb := range L.Body {
 					for _, li := range lb.Instrs {
 						if sel, ok := li.(*ssa.Select); ok && sel.Blocking {
 							for _, st := range sel.States {
 								if dc, ok := st.Chan.(*ssa.Call); ok && dc.Call.IsInvoke() && dc.Call.Method.Name() == "Done" {
 									hasDone = true
+									selBlocks = append(selBlocks, lb)
 								}
 							}
 						}
 					}
 				}
 				c.S.Check(hasDone, "R3", name+":cancellation", c.pos(call.Pos()), "polling loop selects on ctx.Done()", "polling loop cannot be cancelled (no select on ctx.Done())")
+				// every way round the loop passes the select: no iteration polls again without waiting
+				// for the timer or the context (a `continue` above the select spins and ignores cancellation)
+				if hasDone {
+					everyRound := true
+					for _, back := range L.Backs {
+						dom := false
+						for _, sb := range selBlocks {
+							if sb.Dominates(back) {
+								dom = true
+							}
+						}
+						if !dom {
+							everyRound = false
+						}
+					}
+					c.S.Check(everyRound, "R3", name+":wait on every round", c.pos(call.Pos()), "every back edge of the polling loop passes the select on ctx.Done()", "the polling loop can go round without passing its select on ctx.Done(): it polls again at once, and cancellation or expiry of the context is not observed on that path")
+				}
 			}
 		}
 	}
